@@ -65,7 +65,7 @@ def run(tier, seed):
             route_count[n] = route_count.get(n, 0) + 1
     avoid = {"logical_assign_nonlexical"}
     for i in range(n_core):
-        progs.append(("core", gen_core.generate(seed, i, avoid=avoid, label="c10")[0]))
+        progs.append(("core", gen_core.generate_form(seed, i, avoid=avoid, label="c10")[0]))
     for i in range(n_shape):
         progs.append(("shape", gen_shape.generate(seed, 5000 + i)))
     # baseline: no forced collection
